@@ -221,7 +221,7 @@ fn plain_write_case(put: bool, env: u8, fault: bool) {
         assert!(kfs::first_call(kfs::C_READDIR) < kfs::first_call(pubkind), "KV-C10: maintenance runs before the write's own insertion");
     }
     if !maintained {
-        assert!(st.calls <= 12, "KV-C06: set/put finish within a constant number of their own filesystem steps");
+        assert!(st.calls <= 16, "KV-C06: set/put finish within a constant number of their own filesystem steps");
         assert!(st.kind_calls[kfs::C_OPEN as usize] == 0 && st.open_peak == 0, "KV-C20: a plain write opens no file");
     }
     assert!(st.open_now == 0, "KV-C20: nothing stays open after a write");
